@@ -158,7 +158,9 @@ fn random_effects(rng: &mut Rng, rule: &mut RuleSpec, distinct_rank: Option<u16>
         log: rng.below(3),
         hdr: rng.below(5),
         body: rng.below(3),
-        sampling: 0,
+        // deterministic sampling only (none / rate 0 / rate 100): the live pipeline and the action trace must take
+        // the same decision, whatever the request's override
+        sampling: *rng.pick(&[0usize, 0, 0, 1, 2]),
         target: rng.below(3),
     };
     let template = c05::rule_from_grid(&rule.id, 0, g);
@@ -171,6 +173,11 @@ fn random_effects(rng: &mut Rng, rule: &mut RuleSpec, distinct_rank: Option<u16>
 pub fn random_case_world(rng: &mut Rng) -> (World, Vec<String>, bool) {
     let max_rules = if rng.chance(1, 4) { 24 } else { 8 };
     let mut world = super::c01::random_world(rng, max_rules);
+    // trace and match are both the library's: the marketing-parameter flag may be off as well, so that configurations
+    // that rewrite *nothing* (all four ignore_* flags off) are among the routers
+    if rng.chance(1, 3) {
+        world.cfg.ignore_marketing_query_params = false;
+    }
     let distinct = rng.chance(2, 3);
     let n = world.rules.len();
     let mut ranks: Vec<u16> = (0..n as u16).collect();
@@ -214,7 +221,29 @@ pub fn run(ctx: &Ctx, _args: &Args) -> i32 {
                 }
             };
             let world_hash = fnv_str(&serde_json::to_string(&world).unwrap());
-            for (q, _) in probes {
+            // requests as the proxy hands them over (normalised under the *default* configuration, not under the
+            // router's): some carry an explicit sampling decision, some a URL that the router's own normalisation
+            // rewrites (marketing parameter to set aside, characters to percent-encode, parameters to sort)
+            let mut probes: Vec<ReqSpec> = probes.into_iter().map(|(q, _)| q).collect();
+            let mut extra: Vec<ReqSpec> = Vec::new();
+            for q in &probes {
+                if !rng.chance(1, 3) {
+                    continue;
+                }
+                let mut v = q.clone();
+                v.url = match rng.below(4) {
+                    0 => format!("{}{}utm_source=mail", v.url, if v.url.contains('?') { "&" } else { "?" }),
+                    1 => format!("{}{}z=1&b=2", v.url, if v.url.contains('?') { "&" } else { "?" }),
+                    2 => v.url.replace("/a", "/a b"),
+                    _ => format!("{}/caf\u{e9}", v.url.split('?').next().unwrap_or("/")),
+                };
+                extra.push(v);
+            }
+            probes.extend(extra);
+            for q in probes.iter_mut() {
+                q.sampling_override = *rng.pick(&[None, None, Some(true), Some(false)]);
+            }
+            for q in probes {
                 report.eval();
                 let case = Case { request: q.clone(), ..proto.clone() };
                 match guarded(|| check(&case, &router)) {
